@@ -1,4 +1,5 @@
 import Xsm.Model.Plan
+import Xsm.Model.Parse
 /-
 EXECUTE side and the macrostep loops, parameterised by engine flavour.
 -/
@@ -7,13 +8,20 @@ namespace XSM
 inductive Flavor where | sync | async
 deriving DecidableEq, Repr, Inhabited
 
+/-- a queued event; `self` marks one the interpreter raised at itself while processing (async) -/
+structure QEv where
+  ev : Ev
+  self : Bool := false
+deriving Inhabited
+
 structure St where
   cfg : List Path := []
   hist : List (Path × List Path) := []
-  queue : List Ev := []
+  queue : List QEv := []
   status : String := "uninitialized"
   trace : List String := []          -- newest first
   err : Option EErr := none          -- sticky for the current command (sync: raised from send)
+  ctx : List (String × Int) := []    -- the integer-valued part of the context
   raiseDepth : Nat := 0              -- async `_raise_depth`
   errors : Nat := 0                  -- async: events whose processing failed (logged, loop survives)
 deriving Inhabited
@@ -37,17 +45,136 @@ def raisedEvent (a : ActionRef) : Option Ev :=
     | _ => none
   | none => none
 
-/-- `snd` is used for done.state events, `sndRaise` for the `raise` action (async counts those) -/
+abbrev Ctx := List (String × Int)
+
+def ctxSet (c : Ctx) (k : String) (v : Int) : Ctx :=
+  if c.any (fun kv => kv.1 = k) then c.map (fun kv => if kv.1 = k then (k, v) else kv) else c ++ [(k, v)]
+def ctxGet (c : Ctx) (k : String) : Int := ((c.find? (fun kv => kv.1 = k)).map (·.2)).getD 0
+
+/-- what a user-supplied action does when called with (context, event type) -/
+inductive AOut where
+  | ok (ctx : Ctx)        -- returns normally, leaving this context
+  | raises                -- raises an exception
+  | missing               -- no implementation registered under that name
+  | isAsync (ctx : Ctx)   -- a coroutine function (fine for the async engine, refused by the sync one)
+deriving Inhabited
+
+/-- user code: guards and actions are arbitrary functions of (name, context, event type) -/
+structure UEnv where
+  g : String → Ctx → String → GOut
+  a : String → Ctx → String → AOut
+
+def UEnv.genv (u : UEnv) (c : Ctx) (ev : String) : GEnv := fun n => u.g n c ev
+
+/-- the environment the action executor runs in. `snd` is used for done.state events, `sndRaise` for
+    the `raise` action (the async engine counts both while processing); `act` is the user's action
+    registry, `geval` the guard evaluator `choose` branches go through (the engine instantiates it with
+    the very evaluator transitions use), `syncEngine` says whether coroutine actions are refused. -/
 structure Hooks where
   snd : Snd
   sndRaise : Snd
+  act : String → Ctx → String → AOut := fun _ c _ => .ok c
+  geval : GuardExpr → St → String → Except GErr Bool := fun _ _ _ => .ok true
+  syncEngine : Bool := true
+
+def canonicalBuiltin (ty : String) : Option String :=
+  (Tables.builtinAliases.find? (fun kv => kv.1 = ty)).map (·.2)
+
+/-- `assign` with a literal mapping: integer entries are applied in order (others are outside the model) -/
+def applyAssign (params : Option J) (c : Ctx) : Ctx :=
+  let asg : Option J := match params with
+    | some (.obj kvs) => (match (J.obj kvs).get? "assignment" with | some v => some v | none => none)
+    | _ => none
+  match asg with
+  | some (.obj kvs) => kvs.foldl (fun c kv => match kv.2 with | .num n => ctxSet c kv.1 n | _ => c) c
+  | _ => c
+
+/-- the branch list of a `choose`: (guard config, actions config) -/
+def chooseBranches (params : Option J) : List (Option J × Option J) :=
+  match params with
+  | some (.obj kvs) =>
+    (match (J.obj kvs).get? "conditions" with
+     | some (.arr bs) => bs.map (fun b => ((if b.hasKey "guard" then b.get? "guard" else b.get? "cond"), b.get? "actions"))
+     | _ => [])
+  | _ => []
+
+inductive BOut where           -- what running one built-in produced
+  | followups (as : List ActionRef)
+  | failed (e : EErr)          -- the built-in raised: contained by the caller like a failing user action
+
+/-- first branch whose guard passes (`guard_cfg is None or _is_guard_satisfied(...)`) -/
+def pickBranch (h : Hooks) (s : St) (evType : String) : List (Option J × Option J) → BOut
+  | [] => .followups []
+  | (g, acts) :: rest =>
+    let take : BOut :=
+      match (match acts with
+             | none => (.ok [] : Except PErr (List ActionRef))
+             | some (.arr xs) => xs.mapM parseAction
+             | some v => (parseAction v).map (fun a => [a])) with
+      | .ok as => .followups as
+      | .error _ => .failed (.invalidConfig "choose: bad action")
+    match g with
+    | none => take
+    | some .null => take
+    | some gj =>
+      match parseGuard gj with
+      | .error _ => .failed (.invalidConfig "choose: bad guard")
+      | .ok ge =>
+        match h.geval ge s evType with
+        | .error (.missing n) => .failed (.missingGuard n)
+        | .ok true => take
+        | .ok false => pickBranch h s evType rest
+
+/-- `assign` (skipped, like every built-in, once the depth bound is exhausted) -/
+def assignStep (canon : String) (cut : Bool) (a : ActionRef) (s : St) : St :=
+  if canon = Tables.act_ASSIGN ∧ cut = false then { s with ctx := applyAssign a.params s.ctx } else s
+
+/-- after the follow-ups of a built-in ran: an error escaping the nested list is contained here like
+    any failing built-in; otherwise `raise` is delivered -/
+def finishBuiltin (h : Hooks) (canon : String) (a : ActionRef) (s2 : St) : St × Bool :=
+  if s2.err.isSome then (emit ("#aerr:" ++ a.type) { s2 with err := none }, true)
+  else if canon = Tables.act_RAISE then
+    ((match raisedEvent a with | some e => h.sndRaise e s2 | none => s2), false)
+  else (s2, false)
+
+/-- a built-in action: `_collect_builtin_followups`, the follow-ups, then the engine-specific delivery -/
+def builtinStep (h : Hooks) (nested : List ActionRef → String → St → St) (cut : Bool) (evType : String)
+    (canon : String) (a : ActionRef) (s : St) : St × Bool :=
+  let bo : BOut :=
+    if cut then .followups []
+    else if canon = Tables.act_CHOOSE then pickBranch h s evType (chooseBranches a.params)
+    else .followups []
+  match bo with
+  | .failed _ => (emit ("#aerr:" ++ a.type) s, true)
+  | .followups fs =>
+    finishBuiltin h canon a (if fs.isEmpty then assignStep canon cut a s else nested fs evType (assignStep canon cut a s))
+
+/-- one action of `_execute_actions`. `nested` runs a follow-up list one level deeper; `cut` says the
+    depth bound is exhausted (`_action_depth > MAX_ACTION_DEPTH`: built-ins produce nothing).
+    The Bool of the accumulator says "the rest of this list is skipped". -/
+def actStep (h : Hooks) (nested : List ActionRef → String → St → St) (cut : Bool) (evType : String)
+    (acc : St × Bool) (a : ActionRef) : St × Bool :=
+  if acc.2 || acc.1.err.isSome then acc else
+  -- a user implementation of the same name wins over a built-in
+  match h.act a.type acc.1.ctx evType with
+  | .ok c => (emit s!"{a.type}@{evType}" { acc.1 with ctx := c }, false)
+  | .isAsync c =>
+    if h.syncEngine then (acc.1.fail (.notSupported a.type), true)
+    else (emit s!"{a.type}@{evType}" { acc.1 with ctx := c }, false)
+  | .raises => (emit ("#aerr:" ++ a.type) (emit s!"{a.type}@{evType}" acc.1), true)
+  | .missing =>
+    match canonicalBuiltin a.type with
+    | none => (acc.1.fail (.missingAction a.type), true)
+    | some canon => builtinStep h nested cut evType canon a acc.1
+
+/-- `_execute_actions`, with nested expansion (`choose`) bounded by the code's own depth counter:
+    `fuel` is `MAX_ACTION_DEPTH + 1 - _action_depth`. -/
+def execActionsF (h : Hooks) : Nat → List ActionRef → String → St → St
+  | 0, as, evType, s => (as.foldl (actStep h (fun _ _ s => s) true evType) (s, false)).1
+  | f + 1, as, evType, s => (as.foldl (actStep h (execActionsF h f) false evType) (s, false)).1
 
 def execActions (h : Hooks) (as : List ActionRef) (evType : String) (s : St) : St :=
-  as.foldl (fun s a =>
-    if s.err.isSome then s
-    else if raiseAliases.contains a.type then
-      (match raisedEvent a with | some e => h.sndRaise e s | none => s)
-    else emit s!"{a.type}@{evType}" s) s
+  execActionsF h (Tables.maxActionDepth + 1) as evType s
 
 -- done-ness: `_is_state_done` ----------------------------------------------------------------------
 mutual
@@ -129,6 +256,15 @@ def exitOne (h : Hooks) (fl : Flavor) (m : Machine) (ev : Option String) (s : St
   | none => s
   | some d => delActive p (execActions h d.exit (exitEvName fl m p ev) s)
 
+/-- the three phases of an external transition, in order; the first error stops everything after it -/
+def runPlan (h : Hooks) (fl : Flavor) (m : Machine) (ev : Ev) (pl : Plan) (s : St) : St :=
+  let s2 := pl.exits.foldl (exitOne h fl m (some ev.type)) (recordHistory m pl.exits s)
+  let s3 := if s2.err.isSome then s2 else execActions h pl.actions ev.type s2
+  let s4 := pl.entries.foldl (enterOne h fl m (some ev.type)) s3
+  match pl.err with
+  | some e => s4.fail e
+  | none => s4
+
 /-- run a plan: exits, actions, entries, in that order; a failed transition restores the configuration -/
 def executeCore (h : Hooks) (fl : Flavor) (m : Machine) (ev : Ev) (pl : Plan) (s : St) : St :=
   if pl.internal then
@@ -136,14 +272,8 @@ def executeCore (h : Hooks) (fl : Flavor) (m : Machine) (ev : Ev) (pl : Plan) (s
     | some e => s.fail e
     | none => execActions h pl.actions ev.type s
   else
-    let s1 := recordHistory m pl.exits s
-    let s2 := pl.exits.foldl (exitOne h fl m (some ev.type)) s1
-    let s3 := if s2.err.isSome then s2 else execActions h pl.actions ev.type s2
-    let s4 := pl.entries.foldl (enterOne h fl m (some ev.type)) s3
-    let s5 := match pl.err with
-      | some e => if s4.err.isSome then s4 else s4.fail e
-      | none => s4
-    if s5.err.isSome then { s5 with cfg := s.cfg } else s5
+    let r := runPlan h fl m ev pl s
+    if r.err.isSome then { r with cfg := s.cfg } else r
 
 /-- the observation point of `on_transition` plugins and subscribers: the configuration they see -/
 def obsRecord (m : Machine) (s : St) : String := "#t:" ++ ",".intercalate (s.cfg.map m.idOf)
@@ -153,8 +283,8 @@ def execute (h : Hooks) (fl : Flavor) (m : Machine) (ev : Ev) (pl : Plan) (s : S
   let r := executeCore h fl m ev pl s
   if r.err.isSome then r else emit (obsRecord m r) r
 
-def processEvent (h : Hooks) (fl : Flavor) (m : Machine) (env : GEnv) (ev : Ev) (s : St) : St :=
-  match selectTransitions m s.cfg env ev with
+def processEvent (h : Hooks) (fl : Flavor) (m : Machine) (u : UEnv) (ev : Ev) (s : St) : St :=
+  match selectTransitions m s.cfg (u.genv s.ctx ev.type) ev with
   | .error (.missing n) => s.fail (.missingGuard n)
   | .ok sel =>
     sel.foldl (fun s c =>
@@ -162,100 +292,111 @@ def processEvent (h : Hooks) (fl : Flavor) (m : Machine) (env : GEnv) (ev : Ev) 
       else if sel.length > 1 && !(s.cfg.contains c.src) then s
       else execute h fl m ev (planTransition m s.cfg s.hist c) s) s
 
-def transientLoop (h : Hooks) (fl : Flavor) (m : Machine) (env : GEnv) : Nat → St → St
+def transientLoop (h : Hooks) (fl : Flavor) (m : Machine) (u : UEnv) : Nat → St → St
   | 0, s => s
   | fuel + 1, s =>
     if s.err.isSome then s else
-    match selectTransitions m s.cfg env (.user "") with
+    match selectTransitions m s.cfg (u.genv s.ctx "") (.user "") with
     | .error (.missing n) => s.fail (.missingGuard n)
     | .ok sel =>
       if !sel.isEmpty && sel.any (fun c => c.t.event = "") then
-        transientLoop h fl m env fuel (processEvent h fl m env (.user "") s)
+        transientLoop h fl m u fuel (processEvent h fl m u (.user "") s)
       else s
 
-def enqueue : Snd := fun e s => if s.status = "running" then { s with queue := s.queue ++ [e] } else s
+def enqueueQ (self : Bool) : Snd := fun e s =>
+  if s.status = "running" then { s with queue := s.queue ++ [⟨e, self⟩] } else s
+def enqueue : Snd := enqueueQ false
+
+/-- hooks of an engine: user registry, the transitions' own guard evaluator for `choose`, sends -/
+def mkHooks (u : UEnv) (m : Machine) (sync : Bool) (snd sndRaise : Snd) : Hooks :=
+  { snd, sndRaise, act := u.a, syncEngine := sync,
+    geval := fun g s ev => evalGuard m s.cfg (u.genv s.ctx ev) g }
 
 -- SYNC ---------------------------------------------------------------------------------------------
-def hooksFlagged : Hooks := { snd := enqueue, sndRaise := enqueue }
+/-- every send made while `_is_processing` is set only enqueues -/
+def hooksFlagged (u : UEnv) (m : Machine) : Hooks := mkHooks u m true enqueue enqueue
 
-def drainLoop (m : Machine) (env : GEnv) : Nat → St → St
+def drainLoop (m : Machine) (u : UEnv) : Nat → St → St
   | 0, s => if s.queue.isEmpty then s else { s with queue := [] }
   | budget + 1, s =>
     match s.queue with
     | [] => s
-    | e :: rest =>
+    | ⟨e, _⟩ :: rest =>
       -- a machine that completed / failed / stopped processes nothing further
       if s.status ≠ "running" then { s with queue := [] } else
       -- `on_event_received` plugins see every dequeued event
-      let s := processEvent hooksFlagged .sync m env e (emit ("#recv:" ++ e.type) { s with queue := rest })
-      let s := transientLoop hooksFlagged .sync m env m.maxIterations s
-      if s.err.isSome then s else drainLoop m env budget s
+      let s := processEvent (hooksFlagged u m) .sync m u e (emit ("#recv:" ++ e.type) { s with queue := rest })
+      let s := transientLoop (hooksFlagged u m) .sync m u m.maxIterations s
+      if s.err.isSome then s else drainLoop m u budget s
 
-def drainFlagged (m : Machine) (env : GEnv) (s : St) : St := drainLoop m env m.maxIterations s
+def drainFlagged (m : Machine) (u : UEnv) (s : St) : St := drainLoop m u m.maxIterations s
 
-def sndUnflagged (m : Machine) (env : GEnv) : Snd := fun e s =>
-  if s.status = "running" then drainFlagged m env { s with queue := s.queue ++ [e] } else s
+def sndUnflagged (m : Machine) (u : UEnv) : Snd := fun e s =>
+  if s.status = "running" then drainFlagged m u { s with queue := s.queue ++ [⟨e, false⟩] } else s
 
 def startEntries (m : Machine) : List Entry × Option EErr :=
   let (es, e) := dfltDescend m [] m.root
   (⟨[], false⟩ :: es, e)
 
-def syncStart (m : Machine) (env : GEnv) (s : St) : St :=
-  let s := { s with status := "running" }
+def syncStart (m : Machine) (u : UEnv) (s : St) : St :=
+  let s := { s with status := "running", ctx := m.ctx0 }
   -- `_enter_states([machine])` with event None: every state gets its own synthetic entry event
   let (es, e) := startEntries m
-  let s := es.foldl (enterOne hooksFlagged .sync m none) s
+  let s := es.foldl (enterOne (hooksFlagged u m) .sync m none) s
   let s := match e with | some err => s.fail err | none => s
   if s.err.isSome then s else
   -- settling runs behind the re-entrancy guard too; the queue is drained afterwards
-  let s := transientLoop hooksFlagged .sync m env m.maxIterations s
+  let s := transientLoop (hooksFlagged u m) .sync m u m.maxIterations s
   if s.err.isSome then s else
-  drainFlagged m env s
+  drainFlagged m u s
 
-def syncSend (m : Machine) (env : GEnv) (e : Ev) (s : St) : St := sndUnflagged m env e s
+def syncSend (m : Machine) (u : UEnv) (e : Ev) (s : St) : St := sndUnflagged m u e s
 
 -- ASYNC ----------------------------------------------------------------------------------------------
+/-- `start()` itself runs outside the run loop (`_processing` is false): nothing is counted -/
+def hooksAsyncStart (u : UEnv) (m : Machine) : Hooks := mkHooks u m false enqueue enqueue
+
 /-- while the run loop is processing an event (`_processing`), both the `raise` built-in and a
-    `done.state.*` raised by an entry count towards the chain breaker -/
-def hooksAsync : Hooks :=
-  { snd := fun e s => enqueue e { s with raiseDepth := s.raiseDepth + 1 }
-    sndRaise := fun e s => enqueue e { s with raiseDepth := s.raiseDepth + 1 } }
+    `done.state.*` raised by an entry count towards the chain breaker and are marked self-raised -/
+def hooksAsync (u : UEnv) (m : Machine) : Hooks :=
+  mkHooks u m false (fun e s => enqueueQ true e { s with raiseDepth := s.raiseDepth + 1 })
+    (fun e s => enqueueQ true e { s with raiseDepth := s.raiseDepth + 1 })
 
 /-- one iteration of `_run_event_loop`; an error while processing is logged and the loop survives -/
-def asyncStep (m : Machine) (env : GEnv) (e : Ev) (s : St) : St :=
-  if s.raiseDepth > m.maxIterations then { s with raiseDepth := 0 }        -- chain broken: event dropped
+def asyncStep (m : Machine) (u : UEnv) (e : Ev) (s : St) : St :=
+  -- chain broken: this event is dropped together with every other self-raised event still queued
+  if s.raiseDepth > m.maxIterations then { s with raiseDepth := 0, queue := s.queue.filter (fun q => !q.self) }
   else
     let before := s.raiseDepth
-    let s1 := processEvent hooksAsync .async m env e (emit ("#recv:" ++ e.type) s)
-    let s2 := transientLoop hooksAsync .async m env m.maxIterations s1
+    let s1 := processEvent (hooksAsync u m) .async m u e (emit ("#recv:" ++ e.type) s)
+    let s2 := transientLoop (hooksAsync u m) .async m u m.maxIterations s1
     if s2.err.isSome then { s2 with err := none, errors := s2.errors + 1 }
-    else if s2.raiseDepth = before then { s2 with raiseDepth := 0 } else s2
+    else if s2.raiseDepth = before && !(s2.queue.any (·.self)) then { s2 with raiseDepth := 0 } else s2
 
 /-- run the loop until the queue is empty or the machine stops running; `fuel` only guards the model
     (the code has no such bound: exhaustion is reported as a hang) -/
-def asyncDrain (m : Machine) (env : GEnv) : Nat → St → St
+def asyncDrain (m : Machine) (u : UEnv) : Nat → St → St
   | 0, s => if s.queue.isEmpty || s.status ≠ "running" then s else { s with status := "HANG" }
   | fuel + 1, s =>
     if s.status ≠ "running" then s else
     match s.queue with
     | [] => s
-    | e :: rest => asyncDrain m env fuel (asyncStep m env e { s with queue := rest })
+    | q :: rest => asyncDrain m u fuel (asyncStep m u q.ev { s with queue := rest })
 
 def asyncFuel (m : Machine) : Nat := 10 * m.maxIterations + 50
 
-def asyncStart (m : Machine) (env : GEnv) (s : St) : St :=
-  let s := { s with status := "running" }
+def asyncStart (m : Machine) (u : UEnv) (s : St) : St :=
+  let s := { s with status := "running", ctx := m.ctx0 }
   let (es, e) := startEntries m
-  -- `start()` itself runs outside the run loop (`_processing` is false): nothing is counted
-  let s := es.foldl (enterOne hooksFlagged .async m (some "___xstate_statemachine_init___")) s
+  let s := es.foldl (enterOne (hooksAsyncStart u m) .async m (some "___xstate_statemachine_init___")) s
   let s := match e with | some err => s.fail err | none => s
   if s.err.isSome then { s with status := "stopped" } else
-  let s := transientLoop hooksFlagged .async m env m.maxIterations s
+  let s := transientLoop (hooksAsyncStart u m) .async m u m.maxIterations s
   if s.err.isSome then { s with status := "stopped" } else
-  asyncDrain m env (asyncFuel m) s
+  asyncDrain m u (asyncFuel m) s
 
-def asyncSend (m : Machine) (env : GEnv) (e : Ev) (s : St) : St :=
-  if s.status = "running" then asyncDrain m env (asyncFuel m) { s with queue := s.queue ++ [e] } else s
+def asyncSend (m : Machine) (u : UEnv) (e : Ev) (s : St) : St :=
+  if s.status = "running" then asyncDrain m u (asyncFuel m) { s with queue := s.queue ++ [⟨e, false⟩] } else s
 
 def start (fl : Flavor) := match fl with | .sync => syncStart | .async => asyncStart
 def send (fl : Flavor) := match fl with | .sync => syncSend | .async => asyncSend
